@@ -147,13 +147,12 @@ Definition opt_oid_eqb (a b : option oid) : bool :=
 (* I : goja (proxy.go)                                                                      *)
 (* ======================================================================================== *)
 
-(* Value.SameAs between a descriptor's Getter/Setter (an Object or _undefined) and
-   valueProperty.getterFunc (a possibly nil *Object): _undefined.SameAs(x) is false for every
-   *Object x, and obj.SameAs(nil) is false. *)
+(* proxy.go sameAccessorFunc(v Value, f *Object) (fix beda41a): an Object must be the very function f
+   (f may be nil: then false); anything else (_undefined) matches exactly a missing function *)
 Definition same_fn_goja (d : option fn) (c : option fn) : bool :=
-  match d, c with
-  | Some f, Some g => N.eqb f g
-  | _, _ => false
+  match d with
+  | Some f => match c with Some g => N.eqb f g | None => false end
+  | None => match c with None => true | Some _ => false end
   end.
 
 (* proxy.go:912 __isCompatibleDescriptor *)
@@ -165,7 +164,7 @@ Definition goja_compat (ext : bool) (d : desc) (cur : option prop) : bool :=
       if flag_true (d_conf d) then false else
       if (match d_enum d with Some e => negb (Bool.eqb e (p_enum c)) | None => false end) then false else
       if is_generic d then true else
-      if negb (Bool.eqb (is_data d) (negb (p_is_acc c))) then negb (flag_false (d_conf d)) else
+      if negb (Bool.eqb (is_data d) (negb (p_is_acc c))) then false else
       if is_data d && negb (p_is_acc c) then
         if flag_true (d_writable d) && negb (p_writable c) then false else
         if negb (p_writable c) then
@@ -175,8 +174,8 @@ Definition goja_compat (ext : bool) (d : desc) (cur : option prop) : bool :=
           end
         else true
       else if is_accessor d && p_is_acc c then
-        if (match d_set d with Some s => same_fn_goja s (p_setter c) | None => false end) then false else
-        if (match d_get d with Some g => same_fn_goja g (p_getter c) | None => false end) then false else
+        if (match d_set d with Some s => negb (same_fn_goja s (p_setter c)) | None => false end) then false else
+        if (match d_get d with Some g => negb (same_fn_goja g (p_getter c)) | None => false end) then false else
         true
       else true
     else true
@@ -551,27 +550,15 @@ Definition spec_check (c : call) (t : target) : res :=
 Definition spec_proxy_op (revoked : bool) (c : call) (t : target) : res :=
   if revoked then RTypeError else spec_check c t.
 
-(* the region where goja's __isCompatibleDescriptor departs from the spec (finding F6):
-   the existing property is non-configurable and either both sides are accessors, or the kinds
-   differ while the descriptor leaves [[Configurable]] unset *)
-Definition f6_region (d : desc) (cur : option prop) : bool :=
-  match cur with
-  | None => false
-  | Some c =>
-    negb (p_conf c) &&
-    ((is_accessor d && p_is_acc c) ||
-     (negb (is_generic d) && negb (Bool.eqb (is_data d) (negb (p_is_acc c))) && negb (isSome (d_conf d))))
-  end.
-
 (* a result descriptor that is an accessor with neither a getter nor a setter function: goja
    reports it as a data property (toValueProp) *)
 Definition undef_accessor (d : desc) : bool :=
   is_accessor d && negb (isSome (od (d_get d) None)) && negb (isSome (od (d_set d) None)).
 
-Definition call_in_f6 (c : call) (t : target) : bool :=
+(* the only region where goja still departs from the spec (open finding F6c) *)
+Definition call_in_f6c (c : call) : bool :=
   match c with
-  | CGopd k (GDesc d) => f6_region (complete d) (find_prop k (t_props t)) || undef_accessor d
-  | CDefine k d true => f6_region d (find_prop k (t_props t))
+  | CGopd k (GDesc d) => undef_accessor d
   | _ => false
   end.
 
